@@ -3,6 +3,7 @@ package props
 import (
 	"fmt"
 	"go/token"
+	"go/types"
 	"sort"
 	"strings"
 
@@ -687,7 +688,9 @@ func c10Snapshot(r *core.Run, p *core.Program) {
 		})
 		return f
 	}
-	c10Batches(r, p, ld)
+	c10Batches(r, p, ld, "R-C10-snapshot")
+	// decoding into the shared static record starts from empty output slots (shared with C17)
+	c17OutLists(r, p, "R-C10-layout")
 	for _, n := range []string{"SerializeC", "SerializeU"} {
 		c10TwoPass(r, p, n)
 	}
@@ -814,8 +817,7 @@ func c10Snapshot(r *core.Run, p *core.Program) {
 // With cursor c and batch buffer B: a record is written to B[c]; c's values are 0 and c+1; the send made
 // when c is the last index passes all of B (or B[:c+1]) and resets c; the send after the loop passes
 // B[:c] when c > 0. Any other bound loses or duplicates records.
-func c10Batches(r *core.Run, p *core.Program, ld *ssa.Function) {
-	const rule = "R-C10-snapshot"
+func c10Batches(r *core.Run, p *core.Program, ld *ssa.Function, rule string) {
 	var sends []*ssa.Send
 	for _, b := range ld.Blocks {
 		for _, ins := range b.Instrs {
@@ -985,6 +987,39 @@ func c10Batches(r *core.Run, p *core.Program, ld *ssa.Function) {
 		}
 		if !okReset {
 			probs = append(probs, "after joining the filler of a failed attempt ("+p.Pos(b.Instrs[0].Pos())+") the batch cursor is not reset, so records of the abandoned file are sent with the next batch")
+		}
+	}
+	// the batches live in a ring of N buffers and travel through a channel of capacity C: one buffer is being
+	// filled, up to C are queued, one is being drained by the map filler - so C + 2 <= N, and the ring index
+	// advances modulo the same N (a larger C lets the reader refill a buffer the filler still iterates)
+	{
+		var chanCap, ringN, modN int64 = -1, -1, -1
+		an.Instrs(ld, func(i ssa.Instruction) {
+			switch x := i.(type) {
+			case *ssa.MakeChan:
+				if strings.Contains(x.Type().String(), "one_rec") {
+					if k, ok := an.ConstOf(x.Size); ok {
+						chanCap = k.Int64()
+					}
+				}
+			case *ssa.Alloc:
+				if at, ok := an.Deref(x.Type()).Underlying().(*types.Array); ok {
+					if inner, ok := at.Elem().Underlying().(*types.Array); ok && strings.Contains(inner.Elem().String(), "one_rec") {
+						ringN = at.Len()
+					}
+				}
+			case *ssa.BinOp:
+				if x.Op == token.REM {
+					if k, ok := an.ConstOf(x.Y); ok {
+						if a, ok := x.X.(*ssa.BinOp); ok && a.Op == token.ADD && an.Expr(a.Y) == "1" {
+							modN = k.Int64()
+						}
+					}
+				}
+			}
+		})
+		if chanCap < 0 || ringN < 0 || chanCap+2 > ringN || modN != ringN {
+			probs = append(probs, fmt.Sprintf("ring of %d buffers (index advanced modulo %d) with a channel of capacity %d: capacity + 2 must not exceed the ring size", ringN, modN, chanCap))
 		}
 	}
 	sort.Strings(probs)
